@@ -21,6 +21,12 @@ def _layouts(ctx):
         for ok in keysets[len(on)]:
             for pk in keysets[len(pn)]:
                 yield on, ok, pn, pk
+    # three levels: a one-level object against a three-level parameter whose shared level comes last / first, and the same level names in another order
+    # (added after seed C13-e stopped reordering the parameter's levels)
+    k3 = [(1, 'x', 0), (1, 'y', 0), (2, 'x', 1), (2, 'y', 0)]
+    for on3, ok3, pn3, pk3 in ((('a',), [(0,), (1,)], ('c', 'b', 'a'), k3), (('a',), [(1,), (0,)], ('a', 'b', 'c'), [(k_[2], k_[1], k_[0]) for k_ in k3]),
+                               (('a', 'b', 'c'), [(k_[2], k_[1], k_[0]) for k_ in k3], ('c', 'b', 'a'), k3), (('c', 'b', 'a'), k3, ('a',), [(0,), (1,)])):
+        yield on3, ok3, pn3, pk3
     # chained levels: the object's last level is the parameter's first one (curves per (material, element) x loads per (element, scenario)); the parameter
     # pairs 1:1 with the object's rows in the same order, in another order, or multiplies them (added after seed C13-a)
     chain_obj = [[(0, 'x'), (1, 'y')], [(0, 'x'), (0, 'y'), (1, 'z')], [(1, 'y'), (0, 'x')]]
@@ -222,6 +228,19 @@ def b_align(ctx):
                     ctx.fail('C13:scalar', 'scalar parameter not broadcast to the frame rows', None)
             if not obj.equals(snap):
                 ctx.fail('C13:operand-modified', 'scalar broadcast modified the object', None)
+        # array / list parameters against a Series signal (a named parameter set): one row per element, also for ONE element (added after seed C13-f took every
+        # one-element array for a scalar)
+        sig = pd.Series({'k_1': 5.0, 'SD': 300.0, 'ND': 1e6})
+        for prm_ in ([400.0, 500.0], np.array([400.0, 500.0]), [400.0], np.array([400.0]), np.array([[400.0]]).ravel()):
+            n_ = len(prm_)
+            snap = sig.copy()
+            rp_, ro_ = Broadcaster(sig).broadcast(prm_)
+            ctx.case(True, key=('array-vs-series', type(prm_).__name__, n_))
+            ok_ = (isinstance(rp_, pd.Series) and isinstance(ro_, pd.DataFrame) and len(rp_) == n_ and len(ro_) == n_ and rp_.index.equals(ro_.index)
+                   and list(np.asarray(rp_, dtype=float)) == [float(v) for v in prm_] and all((ro_.iloc[i].to_numpy(dtype=float) == snap.to_numpy()).all() for i in range(n_)) and list(ro_.columns) == list(snap.index))
+            if not ok_ or not sig.equals(snap):
+                ctx.fail('C13:array-vs-series', f'Series signal broadcast against the {type(prm_).__name__} {list(map(float, prm_))}: parameter {type(rp_).__name__} {np.asarray(rp_).tolist()}, object {type(ro_).__name__} of {len(ro_)} row(s)',
+                         {'parameter': [float(v) for v in prm_]})
         df = pd.DataFrame({'u': [1.0, 2.0], 'w': [3.0, 4.0]})
         try:
             Broadcaster(df).broadcast([1.0, 2.0, 3.0])
